@@ -1349,6 +1349,9 @@ def run(chk, F):
     rule_r2(chk, cx)
     rule_r3(chk, cx)
     rule_r4(chk, cx)
+    # spans that reach the position conversion lie on character boundaries: computed spans follow the consumed text
+    from rules import c06_spans
+    c06_spans.run(chk, F, rid="C20.R6")
     chk.rules.sort(key=lambda r: r.name)
 
 
